@@ -181,8 +181,18 @@ def discharge(obligations, axioms, timeout_ms=20000, procs=None, covers=None, cr
                 _check, [(i, first_ms, 0) for i in range(len(obligations))], chunksize=1):
             results[idx] = {"status": status, "backend": backend, "time": dt, "extra": extra}
         if _COVERS:
-            for idx, r in pool.imap_unordered(_cover, [(i, 5000) for i in range(len(_COVERS))], chunksize=4):
+            # vacuity: at most 3 exit paths per (function, exit kind) are checked for satisfiability
+            seen = {}
+            pick = []
+            for i, (name, _) in enumerate(_COVERS):
+                seen[name] = seen.get(name, 0) + 1
+                if seen[name] <= 3:
+                    pick.append(i)
+            for idx, r in pool.imap_unordered(_cover, [(i, 2000) for i in pick], chunksize=2):
                 cover_res[idx] = r
+            for i in range(len(_COVERS)):
+                if cover_res[i] is None:
+                    cover_res[i] = "skipped"
     unk = [i for i, r in enumerate(results) if r["status"] == "unknown"]
     if unk:
         tasks = []
